@@ -53,6 +53,9 @@ def run(ctx):
     # (the graph dump below model-checks RetryGen19.cfg with its invariants I_DelayIndex / I_Tokens / I_Bound)
     ctx.neg("RetryMC", "RetryNeg3.cfg", expect="I_DelayIndex", workers=2)
     behs = _retry.generate(ctx, "RetryGen19.cfg", ctx.pick(1500, 10000), ctx.pick(0, 3000))
+    # parser-valid huge multiplier (10 ms x 10^12, max 20 ms): the capped branch must apply from the second retry on
+    behs += _retry.generate(ctx, "RetryGen19H.cfg", ctx.pick(150, None), 0,
+                            rank=lambda b: len(b["scripts"]))
     # token ledger across RPCs: 2-4 RPCs one after the other on ONE channel with throttling configured, attempts failing /
     # succeeding per script, some RPCs exhausting maxAttempts; the ledger (one token per counted failure, tokenRatio 0.5 per
     # success) is carried across the RPCs and every retry / refusal is judged against it
